@@ -311,6 +311,7 @@ func (s *Sim) afterStep() {
 	if s.compoundCheck {
 		// only state invariants are meaningful after an interleaved execution
 		s.checkProviderInvariants(v)
+		s.checkDpAggregate(v)
 		s.prevDump = v.dump
 		s.prevPoolCnt = map[string]int{}
 		for k := range s.released200 {
@@ -320,6 +321,7 @@ func (s *Sim) afterStep() {
 		return
 	}
 	// ---- M-keep: C03 "kept until", C09 reload, C01 moved ----
+	s.checkDpAggregate(v)
 	s.checkKeep(v, op)
 
 	// ---- M-pool: C07 ----
@@ -344,8 +346,65 @@ func (s *Sim) livePodByName(v *view, name string) *corev1.Pod {
 	return nil
 }
 
+// checkDpAggregate: an immutable deployment (no pool) may only lose as many IPs in one step - which may contain several
+// overlapping unbinds - as it held above the smallest replica count anything in the step can have seen. Works on the
+// state before and after the step only, so it is also valid after interleaved executions.
+func (s *Sim) checkDpAggregate(v *view) {
+	for _, wl := range s.WLs {
+		if wl.Kind != KDp || wl.Pool != "" || wl.effPolicy() != 1 || !wl.Exists {
+			continue
+		}
+		lex, lrep := s.listerReplicas(wl)
+		if !lex {
+			continue
+		}
+		minr := wl.Replicas
+		if lrep < minr {
+			minr = lrep
+		}
+		if m := s.minReplicasRecent(wl); m < minr {
+			minr = m
+		}
+		if minr <= 0 {
+			continue
+		}
+		pre := s.prefixKey(wl)
+		cnt := 0
+		var freed []string
+		for ip, e := range s.prevDump {
+			if !strings.HasPrefix(e.Key, pre) {
+				continue
+			}
+			cnt++
+			cur, in := v.dump[ip]
+			if in && cur.Key == "" && !s.released200[ip] && !s.reloadDropped[ip] {
+				freed = append(freed, ip)
+			}
+		}
+		room := cnt - minr
+		if room < 0 {
+			room = 0
+		}
+		if len(freed) > room {
+			sort.Strings(freed)
+			s.alarm("C03", "immutable-deployment-released-below-replicas", fmt.Sprintf(
+				"deployment %s held %d IP(s) with replicas >= %d, yet %d were released in one step (%v): it is left with fewer IPs than replicas",
+				wl.Name, cnt, minr, len(freed), freed))
+		}
+	}
+}
+
 func (s *Sim) checkKeep(v *view, op string) {
 	lostReply := s.faultMode == world.FailAfter
+	defer func() {
+		// replica values older than this step can no longer have been read by anything judged later: what the
+		// lister still holds is looked up when needed
+		for name, h := range s.replHist {
+			if len(h) > 1 {
+				s.replHist[name] = h[len(h)-1:]
+			}
+		}
+	}()
 	for ip, prev := range s.prevDump {
 		if prev.Key == "" || prev.Reserved {
 			continue
